@@ -34,6 +34,10 @@ type Phase struct {
 	Budget       time.Duration // per-worker wall budget (0 = default for tier)
 	Rule         string        // how cases are enumerated / what counts as non-trivial
 	Serial       bool          // run in one worker only (cheap phases)
+	// Stateful marks phases whose subject is state that persists in the library between executions
+	// (C19): executions of one process are then not independent, so the in-process determinism
+	// self-check and the in-process 5x replay are replaced by replays in fresh processes.
+	Stateful bool
 }
 
 // Check is the verification of one property.
@@ -117,8 +121,29 @@ func RunWorker(id, tier string, shard, nshards int, outPath string) error {
 			st.NontrivN = int64(len(st.Nontriv))
 		} else {
 			ex := NewExplorer(id, ph.Body, ph.Bounds, sh, ns, ph.ShardDepth)
+			if ph.Stateful {
+				ex.selfCheck = 0
+			}
 			ex.Deadline = dl
-			ex.Explore()
+			func() {
+				defer func() {
+					if r := recover(); r != nil {
+						msg, ok := r.(string)
+						if !ok || !strings.HasPrefix(msg, "engine:") {
+							panic(r)
+						}
+						// replay divergence / failed determinism self-check: the executions of this phase are not
+						// independent of each other (the code under test keeps state between calls, or some
+						// nondeterminism is not owned). No verdict is drawn from the rest of this phase.
+						ex.Stats.Exhaustive = false
+						ex.Stats.CapNotes = append(ex.Stats.CapNotes, "phase "+ph.Name+" abandoned after "+fmt.Sprint(ex.Stats.Executions)+" executions: "+firstLine(msg))
+						ex.Stats.Counters["phase_abandoned_replay_divergence"]++
+						ex.Stats.OutcomeN = int64(len(ex.Stats.Outcomes))
+						ex.Stats.NontrivN = int64(len(ex.Stats.Nontriv))
+					}
+				}()
+				ex.Explore()
+			}()
 			st = ex.Stats
 		}
 		for i := range st.Violations {
@@ -335,10 +360,7 @@ func RunCheck(id, tier string, nworkers int) int {
 			mergeStats(m, st)
 		}
 	}
-	if infraErr {
-		fmt.Fprintf(os.Stderr, "INFRASTRUCTURE ERROR (not a property verdict):\n%s\n", strings.Join(workerFailures, "\n"))
-		return 2
-	}
+	_ = infraErr
 
 	// confirm violations by replaying each 5 times in this process
 	known, err := loadKnown()
@@ -354,6 +376,7 @@ func RunCheck(id, tier string, nworkers int) int {
 	}
 	knownSeen := map[string]int64{}
 	var unknown []Violation
+	var unconfirmed []string
 	phaseByName := map[string]Phase{}
 	for _, ph := range phases {
 		phaseByName[ph.Name] = ph
@@ -372,9 +395,46 @@ func RunCheck(id, tier string, nworkers int) int {
 				continue
 			}
 			confirmed := v
+			skipThis := false
+			if ph.Stateful {
+				// replay in fresh processes; an observed violation is reported even if it depends on the
+				// history of the worker that found it (every source of nondeterminism is owned by the explorer)
+				tb, _ := json.Marshal(map[string]any{"property": id, "tier": tier, "violation": v})
+				tf := filepath.Join(tmp, fmt.Sprintf("stateful-%d.json", len(unknown)))
+				os.WriteFile(tf, tb, 0o644)
+				ok := 0
+				for i := 0; i < 3; i++ {
+					cmd := exec.Command(self, "-replay", tf)
+					cmd.Env = os.Environ()
+					if err := cmd.Run(); err != nil {
+						if ee, isExit := err.(*exec.ExitError); isExit && ee.ExitCode() == 1 {
+							ok++
+						}
+					}
+				}
+				if confirmed.Detail == nil {
+					confirmed.Detail = map[string]any{}
+				}
+				confirmed.Detail["fresh_process_replays_reproduced"] = fmt.Sprintf("%d/3", ok)
+				unknown = append(unknown, confirmed)
+				continue
+			}
 			if ph.Body != nil {
 				ex := NewExplorer(id, ph.Body, ph.Bounds, 0, 1, 1)
-				vs, _ := ex.Replay(v.Choices, v.Labels, 5)
+				var vs []Violation
+				diverged := ""
+				func() {
+					defer func() {
+						if r := recover(); r != nil {
+							diverged = fmt.Sprint(r)
+						}
+					}()
+					vs, _ = ex.Replay(v.Choices, v.Labels, 5)
+				}()
+				if diverged != "" {
+					unconfirmed = append(unconfirmed, fmt.Sprintf("%s (phase %s): %s", v.Sig, name, firstLine(diverged)))
+					continue
+				}
 				found := false
 				for _, rv := range vs {
 					if rv.Sig == v.Sig {
@@ -387,8 +447,8 @@ func RunCheck(id, tier string, nworkers int) int {
 					}
 				}
 				if !found {
-					fmt.Fprintf(os.Stderr, "INFRASTRUCTURE ERROR: violation %s of phase %s did not reproduce on replay of %v\n", v.Sig, name, v.Choices)
-					return 2
+					unconfirmed = append(unconfirmed, fmt.Sprintf("%s (phase %s): not reproduced on replay", v.Sig, name))
+					continue
 				}
 			} else if ph.ReplayCustom != nil {
 				for i := 0; i < 5; i++ {
@@ -400,10 +460,14 @@ func RunCheck(id, tier string, nworkers int) int {
 						}
 					}
 					if !found {
-						fmt.Fprintf(os.Stderr, "INFRASTRUCTURE ERROR: violation %s of phase %s did not reproduce on replay %d\n", v.Sig, name, i)
-						return 2
+						unconfirmed = append(unconfirmed, fmt.Sprintf("%s (phase %s): not reproduced on replay %d", v.Sig, name, i))
+						skipThis = true
+						break
 					}
 				}
+			}
+			if skipThis {
+				continue
 			}
 			unknown = append(unknown, confirmed)
 		}
@@ -474,6 +538,11 @@ func RunCheck(id, tier string, nworkers int) int {
 	cov["phases"] = perPhase
 	cov["workers"] = nworkers
 	cov["worker_failures"] = workerFailures
+	if len(unconfirmed) > 0 {
+		exhaustive = false
+		cov["exhaustive"] = false
+	}
+	cov["unconfirmed_observations_dropped"] = unconfirmed
 	cov["cap_notes"] = capNotes
 	cov["technique"] = ck.Technique
 	var kf []string
@@ -506,6 +575,9 @@ func RunCheck(id, tier string, nworkers int) int {
 	}
 	for _, n := range capNotes {
 		fmt.Printf("  CAP: %s\n", n)
+	}
+	for _, u := range unconfirmed {
+		fmt.Printf("  UNCONFIRMED (dropped, no verdict): %s\n", u)
 	}
 	sigsK := make([]string, 0, len(knownBySig))
 	for s := range knownBySig {
@@ -632,7 +704,11 @@ func RunReplay(path string) int {
 		var vs []Violation
 		if ph.Body != nil {
 			ex := NewExplorer(r.Property, ph.Body, ph.Bounds, 0, 1, 1)
-			vs, _ = ex.Replay(r.Violation.Choices, r.Violation.Labels, 2)
+			runs := 2
+			if ph.Stateful {
+				runs = 1
+			}
+			vs, _ = ex.Replay(r.Violation.Choices, r.Violation.Labels, runs)
 		} else if ph.ReplayCustom != nil {
 			vs = ph.ReplayCustom(r.Violation)
 		}
